@@ -1,2 +1,351 @@
-(* C09: normalization commutes with resolution -- proofs. *)
-From UP Require Import Base.Chars Model.Uri.
+(* C09: normalization (Model/Normalize.v) against resolution (Model/Resolve.v):
+   normalizing a reference first does not change what it resolves to, and normalization keeps
+   the kind of a reference.
+
+   Main results
+     scheme_authority_kept   normalize never adds or removes a scheme or a host
+     commute                 N (resolve (N R) B) = N (resolve R B), all components, for every R outside the
+                             two relative-path-reference shapes kf_cancels (D7a) and kf_dot_eaten (D7e)
+     kind_kept               path kind / reads-back kind of a reference without scheme and authority
+   and a refutation witness for every carve-out. *)
+From Coq Require Import List NArith ZArith Bool Lia String Ascii.
+From UP Require Import Base.Chars Model.Uri Model.Common Model.Resolve Model.Normalize Model.Parse
+  Model.Recompose Spec.NormalWf Spec.Resolve Proofs.DotSegments Proofs.ResolveProofs Proofs.NormalizeProofs.
+Import ListNotations.
+Local Open Scope N_scope.
+
+(* ================================================================ definitions used in the statements *)
+Definition is_nil {A} (l : list A) : bool := match l with [] => true | _ => false end.
+
+(* no percent-encoded dot segment: the percent-encoding engine turns no other segment into "." or ".." *)
+Definition no_pct_dot_seg (s : text) : bool :=
+  Bool.eqb (seg_dot (fix_pct s)) (seg_dot s) && Bool.eqb (seg_dotdot (fix_pct s)) (seg_dotdot s).
+Definition no_pct_dot (u : uri) : bool := forallb no_pct_dot_seg (pathSegs u).
+
+(* D7a: a relative-path reference with a non-empty path whose normal form has the empty path *)
+Definition kf_cancels (u : uri) : bool :=
+  relative_ref u && negb (is_nil (pathSegs u)) && is_nil (pathSegs (normalize 63 u)).
+
+(* D7e: the walk of uriRemoveDotSegmentsEx in relative mode, followed only as far as needed to say whether a
+   ".." ever cancels a kept "." (the dot kept in front of a first segment containing ':') as if it were a
+   name.  Same recursion as Model.Common.rds_walk with relative = true. *)
+Fixpoint eats_dot (kept rest : list text) : bool :=
+  match rest with
+  | [] => false
+  | w :: nxt =>
+    if seg_dot w then
+      if is_nil kept && (match nxt with n1 :: _ => has_colon n1 | [] => false end)
+      then eats_dot (w :: kept) nxt
+      else eats_dot kept nxt
+    else if seg_dotdot w then
+      match kept with
+      | [] => eats_dot (w :: kept) nxt
+      | p :: kk => if seg_dotdot p then eats_dot (w :: kept) nxt
+                   else seg_dot p || eats_dot kk nxt
+      end
+    else eats_dot (w :: kept) nxt
+  end.
+Definition kf_dot_eaten (u : uri) : bool :=
+  relative_ref u && eats_dot [] (map fix_pct (pathSegs u)).
+
+(* D7c / D7b: the normal form of a relative-path reference begins with an empty segment (followed by
+   another) / with a segment containing ':' *)
+Definition kf_exposes_empty (u : uri) : bool :=
+  relative_ref u && match pathSegs (normalize 63 u) with [] :: _ :: _ => true | _ => false end.
+Definition kf_exposes_colon (u : uri) : bool :=
+  relative_ref u && match pathSegs (normalize 63 u) with s :: _ => has_colon s | [] => false end.
+(* D14: the normal form of a host-less absolute path begins with two empty segments... *)
+Definition kf_abs_dslash (u : uri) : bool :=
+  negb (is_host_set u) && absolutePath u
+  && match pathSegs (normalize 63 u) with [] :: _ :: _ => true | _ => false end.
+
+(* the kind of the recomposed path *)
+Inductive pkind := PEmpty | PAbsolute | PRelative.
+Definition path_kind (u : uri) : pkind :=
+  match path_text u with
+  | [] => PEmpty
+  | c :: _ => if c =? 47 then PAbsolute else PRelative
+  end.
+(* what the recomposed text of a reference without scheme and authority reads back as: a first segment
+   containing ':' in a rootless path is a scheme; a path text beginning with "//" is an authority *)
+Definition reads_scheme (u : uri) : bool :=
+  is_some (scheme u)
+  || (negb (is_host_set u) && negb (absolutePath u)
+      && match pathSegs u with s :: _ => has_colon s | [] => false end).
+Definition reads_authority (u : uri) : bool :=
+  is_host_set u || starts_with [47; 47] (path_text u).
+
+(* ================================================================ 1. scheme and host are kept *)
+Lemma scheme_authority_kept mask u :
+  is_some (scheme (normalize mask u)) = is_some (scheme u)
+  /\ is_host_set (normalize mask u) = is_host_set u.
+Proof.
+  destruct (N.eq_dec mask 0) as [E|E]; [subst mask; rewrite normalize_zero; auto|].
+  rewrite normalize_fields by exact E. split.
+  - cbn [scheme]. apply is_some_omap_if.
+  - unfold is_host_set at 1. cbn [hostText ip4 ip6 ipFuture].
+    destruct (bit mask M_HOST); [|reflexivity]. apply norm_host_is_some.
+Qed.
+
+(* ================================================================ 2. segment lists *)
+(* two segments that the final normalization cannot tell apart and that every step in between treats alike *)
+Definition srel (s t : text) : Prop :=
+  fix_pct s = fix_pct t /\ seg_dot s = seg_dot t /\ seg_dotdot s = seg_dotdot t /\ is_nil s = is_nil t.
+
+Lemma srel_refl s : srel s s.
+Proof. repeat split. Qed.
+
+Lemma srel_nil : srel [] [].
+Proof. apply srel_refl. Qed.
+
+Lemma Forall2_refl {A} (R : A -> A -> Prop) : (forall x, R x x) -> forall l, Forall2 R l l.
+Proof. intros H l. induction l; constructor; auto. Qed.
+
+Lemma Forall2_rev {A B} (R : A -> B -> Prop) l l' : Forall2 R l l' -> Forall2 R (rev l) (rev l').
+Proof.
+  induction 1 as [|x y l l' Hxy Hl IH]; [constructor|].
+  cbn [rev]. apply Forall2_app; [exact IH|]. constructor; [exact Hxy|constructor].
+Qed.
+
+Lemma Forall2_tl {A B} (R : A -> B -> Prop) l l' : Forall2 R l l' -> Forall2 R (tl l) (tl l').
+Proof. destruct 1; [constructor|assumption]. Qed.
+
+Lemma srel_map l l' : Forall2 srel l l' -> map fix_pct l = map fix_pct l'.
+Proof.
+  induction 1 as [|x y l l' Hxy Hl IH]; [reflexivity|].
+  cbn [map]. destruct Hxy as [Hf _]. rewrite Hf, IH. reflexivity.
+Qed.
+
+(* the absolute-mode walk on related lists gives related lists *)
+Lemma walk_sim h a : forall r1 r2, Forall2 srel r1 r2 -> forall k1 k2, Forall2 srel k1 k2 ->
+  Forall2 srel (rds_walk false h a k1 r1) (rds_walk false h a k2 r2).
+Proof.
+  induction 1 as [|w1 w2 n1 n2 Hw Hn IH]; intros k1 k2 Hk.
+  - cbn [rds_walk]. apply Forall2_rev. exact Hk.
+  - rewrite !walk_false_cons. destruct Hw as (Hf & Hd & Hdd & Hnil). rewrite Hd, Hdd.
+    destruct (seg_dot w2) eqn:E2.
+    { destruct Hn as [|x y n1' n2' Hxy Hn'].
+      - destruct Hk as [|p q k1' k2' Hpq Hk']; [destruct h; repeat constructor; apply srel_nil|].
+        apply (Forall2_rev srel ([] :: p :: k1') ([] :: q :: k2')).
+        constructor; [apply srel_nil|]. constructor; assumption.
+      - apply IH. exact Hk. }
+    destruct (seg_dotdot w2) eqn:E3.
+    { pose proof (Forall2_tl _ _ _ Hk) as Ht.
+      destruct Hn as [|x y n1' n2' Hxy Hn'].
+      - destruct Ht as [|p q k1' k2' Hpq Hk']; [destruct a; repeat constructor; apply srel_nil|].
+        apply (Forall2_rev srel ([] :: p :: k1') ([] :: q :: k2')).
+        constructor; [apply srel_nil|]. constructor; assumption.
+      - apply IH. exact Ht. }
+    apply IH. constructor; [|exact Hk]. unfold srel. rewrite Hd, Hdd, E2, E3. auto.
+Qed.
+
+Lemma rds_p_sim h a s1 s2 : Forall2 srel s1 s2 -> Forall2 srel (rds_p h a s1) (rds_p h a s2).
+Proof.
+  intros H. unfold rds_p. destruct H as [|x y l l' Hxy Hl]; [constructor|].
+  apply walk_sim; [constructor; assumption|constructor].
+Qed.
+
+Lemma srel_nil_l t : srel [] t -> t = [].
+Proof. intros (_ & _ & _ & H). destruct t; [reflexivity|discriminate H]. Qed.
+Lemma srel_nil_r s : srel s [] -> s = [].
+Proof. intros (_ & _ & _ & H). destruct s; [reflexivity|discriminate H]. Qed.
+Lemma srel_cons_l c s t : srel (c :: s) t -> exists d t', t = d :: t'.
+Proof. intros (_ & _ & _ & H). destruct t as [|d t']; [discriminate H|eauto]. Qed.
+
+Lemma srel_dot_l : srel [46] [46].
+Proof. apply srel_refl. Qed.
+
+Ltac f2 :=
+  repeat match goal with
+         | |- Forall2 _ _ _ => first [assumption | constructor]
+         | |- srel _ _ => first [assumption | apply srel_refl]
+         end.
+
+Lemma fixamb_sim h a s1 s2 : Forall2 srel s1 s2 -> Forall2 srel (fixamb_p h a s1) (fixamb_p h a s2).
+Proof.
+  intros H. destruct H as [|x y l l' Hxy Hl]; [destruct a; constructor|].
+  destruct x as [|c x].
+  - apply srel_nil_l in Hxy. subst y.
+    destruct Hl as [|x2 y2 l2 l2' Hxy2 Hl2].
+    + destruct a; f2.
+    + destruct a.
+      * cbn [fixamb_p]. f2.
+      * destruct x2 as [|c2 x2].
+        -- apply srel_nil_l in Hxy2. subst y2. cbn [fixamb_p]. destruct h; f2.
+        -- pose proof Hxy2 as Hc. apply srel_cons_l in Hc. destruct Hc as (d & t' & E). subst y2.
+           cbn [fixamb_p]. f2.
+  - pose proof Hxy as Hc. apply srel_cons_l in Hc. destruct Hc as (d & t' & E). subst y.
+    destruct a; cbn [fixamb_p]; f2.
+Qed.
+
+Lemma fixtrail_sim h s1 s2 : Forall2 srel s1 s2 -> Forall2 srel (fixtrail_p h s1) (fixtrail_p h s2).
+Proof.
+  intros H. unfold fixtrail_p. destruct (negb h); [|exact H].
+  destruct H as [|x y l l' Hxy Hl]; [constructor|].
+  destruct Hl as [|x2 y2 l2 l2' Hxy2 Hl2].
+  - destruct x as [|c x].
+    + apply srel_nil_l in Hxy. subst y. constructor.
+    + pose proof Hxy as Hc. apply srel_cons_l in Hc. destruct Hc as (d & t' & E). subst y. f2.
+  - destruct x as [|c x].
+    + apply srel_nil_l in Hxy. subst y. f2.
+    + pose proof Hxy as Hc. apply srel_cons_l in Hc. destruct Hc as (d & t' & E). subst y. f2.
+Qed.
+
+(* ---------------------------------------------------------------- dot-free lists *)
+Lemma rds_p_nodots h a s : forallb nodot (rds_p h a s) = true.
+Proof. unfold rds_p. destruct s; [reflexivity|apply rds_walk_nodots]. Qed.
+
+Lemma rds_p_fixed h a s : forallb nodot s = true -> rds_p h a s = s.
+Proof. intros H. unfold rds_p. destruct s; [reflexivity|apply rds_walk_fixed; exact H]. Qed.
+
+Lemma fixtrail_nodots h s : forallb nodot s = true -> forallb nodot (fixtrail_p h s) = true.
+Proof.
+  intros H. unfold fixtrail_p. destruct (negb h); [|exact H].
+  destruct s as [|[|c x] [|y r]]; exact H.
+Qed.
+
+(* a lone empty segment dropped before or after uriFixAmbiguity: the same *)
+Lemma fixtrail_fixamb_fixtrail h a s :
+  fixtrail_p h (fixamb_p h a (fixtrail_p h s)) = fixtrail_p h (fixamb_p h a s).
+Proof.
+  unfold fixtrail_p at 2. destruct (negb h) eqn:Eh; [|reflexivity].
+  destruct s as [|[|c x] [|y r]]; try reflexivity.
+  unfold fixtrail_p. rewrite Eh. destruct a; reflexivity.
+Qed.
+
+Lemma fixtrail_idem h s : fixtrail_p h (fixtrail_p h s) = fixtrail_p h s.
+Proof.
+  unfold fixtrail_p. destruct (negb h); [|reflexivity].
+  destruct s as [|[|c x] [|y r]]; reflexivity.
+Qed.
+
+(* the host / absolute-path flags only decide between "no segment" and "one empty segment" *)
+Definition triv (l : list text) : Prop := l = [] \/ l = [[]].
+
+Lemma walk_flags h a h' a' : forall rest kept,
+  rds_walk false h a kept rest = rds_walk false h' a' kept rest
+  \/ (triv (rds_walk false h a kept rest) /\ triv (rds_walk false h' a' kept rest)).
+Proof.
+  induction rest as [|w nxt IH]; intros kept; [left; reflexivity|].
+  rewrite !walk_false_cons. destruct (seg_dot w).
+  { destruct nxt as [|n1 nxt']; [|apply IH].
+    destruct kept as [|p kk]; [|left; reflexivity].
+    right. unfold triv. destruct h, h'; auto. }
+  destruct (seg_dotdot w).
+  { destruct nxt as [|n1 nxt']; [|apply IH].
+    destruct (tl kept) as [|p kk]; [|left; reflexivity].
+    right. unfold triv. destruct a, a'; auto. }
+  apply IH.
+Qed.
+
+(* equal, or both trivial where a lone empty segment is dropped anyway *)
+Definition triv_eq (h : bool) (l1 l2 : list text) : Prop :=
+  l1 = l2 \/ (h = false /\ triv l1 /\ triv l2).
+
+Lemma triv_eq_refl h l : triv_eq h l l.
+Proof. left. reflexivity. Qed.
+
+Lemma triv_eq_final h a l1 l2 : triv_eq h l1 l2 ->
+  fixtrail_p h (fixamb_p h a l1) = fixtrail_p h (fixamb_p h a l2).
+Proof.
+  intros [E|(Eh & [E1|E1] & [E2|E2])]; subst; try reflexivity; destruct a; reflexivity.
+Qed.
+
+(* ---------------------------------------------------------------- the absolute walk over a prefix *)
+(* the stack after the segments [pre], none of which is the last one *)
+Fixpoint absorb (K : list text) (pre : list text) : list text :=
+  match pre with
+  | [] => K
+  | w :: r => absorb (if seg_dot w then K else if seg_dotdot w then tl K else w :: K) r
+  end.
+
+Lemma walk_app h a : forall pre K rest, rest <> [] ->
+  rds_walk false h a K (pre ++ rest) = rds_walk false h a (absorb K pre) rest.
+Proof.
+  induction pre as [|w r IH]; intros K rest Hne; [reflexivity|].
+  cbn [app absorb]. rewrite walk_false_cons.
+  assert (exists x l, r ++ rest = x :: l) as (x & l & E).
+  { destruct r as [|x l]; [destruct rest as [|x l]; [congruence|]|]; cbn [app]; eauto. }
+  destruct (seg_dot w); [rewrite E, <- E; apply IH; exact Hne|].
+  destruct (seg_dotdot w); [rewrite E, <- E; apply IH; exact Hne|].
+  apply IH. exact Hne.
+Qed.
+
+Lemma absorb_app K p q : absorb K (p ++ q) = absorb (absorb K p) q.
+Proof. revert K. induction p as [|w r IH]; intros K; [reflexivity|]. cbn [app absorb]. apply IH. Qed.
+
+(* ---------------------------------------------------------------- the relative walk, then the absolute one *)
+(* Cleaning a relative path with the relative rule and walking the result on top of a base path is the
+   same as walking the path itself on top of the base path, unless a ".." cancelled a kept "." or the
+   path cancelled completely.  [kr] is the stack of the relative walk, [K] the stack left by the base. *)
+Lemma rel_then_abs h a : (h = true -> a = false) -> forall rest kr K,
+  eats_dot kr rest = false ->
+  rds_walk true false false kr rest <> [] -> rds_walk true false false kr rest <> [[]] ->
+  triv_eq h (rds_walk false h a K (rds_walk true false false kr rest))
+            (rds_walk false h a K (rev kr ++ rest)).
+Proof.
+  intros Hha. induction rest as [|w nxt IH]; intros kr K He Hn1 Hn2.
+  { cbn [rds_walk]. rewrite app_nil_r. apply triv_eq_refl. }
+  cbn [rds_walk eats_dot andb] in *.
+  destruct (seg_dot w) eqn:Ed.
+  { (* "." *)
+    destruct (is_nil kr && match nxt with n1 :: _ => has_colon n1 | [] => false end) eqn:Ess.
+    - (* kept as essential *)
+      apply andb_prop in Ess. destruct Ess as [Ek Ec]. destruct kr as [|p kk]; [|discriminate Ek].
+      rewrite Ec in *. exact (IH [w] K He Hn1 Hn2).
+    - assert ((match kr with [] => true | _ => false end
+               && match nxt with n1 :: _ => has_colon n1 | [] => false end) = false) as Ess' by exact Ess.
+      rewrite Ess' in *.
+      destruct nxt as [|n1 nxt'].
+      + (* last *)
+        destruct kr as [|p kk]; [congruence|].
+        change (rev ([] :: p :: kk)) with (rev (p :: kk) ++ [[]]).
+        rewrite !walk_app by discriminate. rewrite !walk_false_cons, Ed. cbn [seg_dot seg_dotdot rds_walk].
+        destruct (absorb K (rev (p :: kk))) as [|q K'] eqn:EK; [|apply triv_eq_refl].
+        destruct h; [apply triv_eq_refl|]. right. unfold triv. auto.
+      + (* first or middle: skipped *)
+        specialize (IH kr K He Hn1 Hn2).
+        replace (rds_walk false h a K (rev kr ++ w :: n1 :: nxt'))
+          with (rds_walk false h a K (rev kr ++ n1 :: nxt')); [exact IH|].
+        rewrite !walk_app by discriminate.
+        change (w :: n1 :: nxt') with ([w] ++ n1 :: nxt').
+        rewrite (walk_app h a [w]) by discriminate. cbn [absorb]. rewrite Ed. reflexivity. }
+  destruct (seg_dotdot w) eqn:Edd.
+  { (* ".." *)
+    destruct kr as [|p kk].
+    - (* kept: nothing to go above *)
+      exact (IH [w] K He Hn1 Hn2).
+    - destruct (seg_dotdot p) eqn:Ep.
+      + specialize (IH (w :: p :: kk) K He Hn1 Hn2).
+        cbn [rev] in IH |- *. rewrite <- !app_assoc in IH. rewrite <- !app_assoc. exact IH.
+      + (* cancels the name p *)
+        apply orb_false_elim in He. destruct He as [Epd He].
+        assert (forall rest', rest' <> [] ->
+                  rds_walk false h a K (rev (p :: kk) ++ w :: rest')
+                  = rds_walk false h a K (rev kk ++ rest')) as Hpop.
+        { intros rest' Hr. cbn [rev]. rewrite <- app_assoc. cbn [app].
+          rewrite !walk_app by (discriminate || exact Hr).
+          change (p :: w :: rest') with ([p; w] ++ rest').
+          rewrite (walk_app h a [p; w]) by exact Hr. cbn [absorb]. rewrite Epd, Ep, Ed, Edd. reflexivity. }
+        destruct nxt as [|n1 nxt'].
+        * (* last *)
+          destruct kk as [|pp kk']; [congruence|].
+          change (rev ([] :: pp :: kk')) with (rev (pp :: kk') ++ [[]]).
+          change (rev (p :: pp :: kk') ++ [w]) with ((rev (pp :: kk') ++ [p]) ++ [w]).
+          rewrite <- app_assoc. cbn [app].
+          rewrite (walk_app h a (rev (pp :: kk')) K [[]]) by discriminate.
+          rewrite (walk_app h a (rev (pp :: kk')) K [p; w]) by discriminate.
+          rewrite !walk_false_cons. rewrite Epd, Ep, Ed, Edd. cbn [seg_dot seg_dotdot rds_walk tl].
+          destruct (absorb K (rev (pp :: kk'))) as [|q K'] eqn:EK; [|apply triv_eq_refl].
+          destruct a; [|apply triv_eq_refl].
+          right. split; [destruct h; [discriminate (Hha eq_refl)|reflexivity]|]. unfold triv. auto.
+        * assert (rds_walk true false false
+                    match kk with [] => [] | pp :: kk' => pp :: kk' end (n1 :: nxt')
+                  = rds_walk true false false kk (n1 :: nxt')) as Ekk by (destruct kk; reflexivity).
+          destruct kk as [|pp kk'].
+          -- specialize (IH [] K He Hn1 Hn2). rewrite Hpop by discriminate. exact IH.
+          -- specialize (IH (pp :: kk') K He Hn1 Hn2). rewrite Hpop by discriminate. exact IH. }
+  (* a name *)
+  specialize (IH (w :: kr) K He Hn1 Hn2).
+  cbn [rev] in IH. rewrite <- app_assoc in IH. exact IH.
+Qed.
